@@ -123,8 +123,8 @@ def _judge_url_roundtrip(X, r, u, cls, valid, tag):
     except urlref.Invalid as e:
         X.fail(f"C33/{tag}/getter-output-not-a-url/{cls}", f"r.url = {u!r}; r.url reads {v!r}, which is not a valid URL ({e})")
     for i, comp in enumerate(("scheme", "host", "port", "path")):
-        X.check(refv[i] == ref[i], f"C33/{tag}/not-equivalent/{comp}/{'port-zero' if comp == 'port' and ref[2] == 0 else cls}",
-                f"r.url = {u!r}; r.url reads {v!r}: {comp} {refv[i]!r} != {ref[i]!r}")
+        key = "C33/url-port-zero-becomes-default" if comp == "port" and ref[2] == 0 else f"C33/{tag}/not-equivalent/{comp}/{cls}"
+        X.check(refv[i] == ref[i], key, f"r.url = {u!r}; r.url reads {v!r}: {comp} {refv[i]!r} != {ref[i]!r}")
     # attributes agree with v
     X.check(r.scheme == refv[0], f"C33/{tag}/attr/scheme", f"scheme {r.scheme!r} vs url {v!r}")
     X.check(r.port == refv[2], f"C33/{tag}/attr/port", f"port {r.port!r} vs url {v!r}")
@@ -134,6 +134,7 @@ def _judge_url_roundtrip(X, r, u, cls, valid, tag):
         hk = ("invalid", str(e))
     X.check(hk == refv[1], f"C33/{tag}/attr/host/{cls}", f"host {r.host!r} vs url {v!r}")
     X.check(urlref.norm_rest(r.path) == refv[3], f"C33/{tag}/attr/path", f"path {r.path!r} vs url {v!r}")
+    X.check(r.path.startswith("/"), f"C33/{tag}/attr/path-not-origin-form", f"r.url = {u!r}: path {r.path!r} does not start with '/'")
     # assigning the result again changes nothing
     st = r.get_state()
     try:
@@ -304,6 +305,43 @@ def h_parse_unparse(X, n):
     X.check(again == p, f"C33/parse/not-a-fixpoint/{cls}", f"{p!r} -> {back!r} -> {again!r}")
 
 
+AUTH_PORTS = [None, "80", "443", "8080", "65535", "65536", "", "x", "8 0", "+80", "\u0668\u0660", "80\n"]
+
+
+def h_parse_authority(X):
+    """url.parse_authority on host[:port] texts: the Host header / :authority / CONNECT target gate"""
+    from mitmproxy.net.http import url
+
+    cls, host, valid = _host(X, ["name", "idn-a", "idn-u", "ipv4", "ipv6"] if TIER["thorough"] else ["menu", "idn-u"])
+    port = X.choose("port", AUTH_PORTS)
+    a = host + ("" if port is None else ":" + port)
+    as_bytes = X.boolean("as_bytes")
+    arg = a.encode("utf-8") if as_bytes else a
+    port_ok = port is None or (port.isascii() and port.isdigit() and int(port) <= 65535)
+    # lenient mode never raises
+    try:
+        lh, lp = url.parse_authority(arg, check=False)
+    except Exception as e:  # noqa
+        X.fail("C33/parse-authority/lenient-raises", f"parse_authority({arg!r}, check=False) raised {type(e).__name__}: {e}")
+    try:
+        h, p = url.parse_authority(arg, check=True)
+    except ValueError:
+        X.reach("rejected")
+        X.check(not (port_ok and valid) or cls == "idn-u", f"C33/parse-authority/rejects-valid/{cls}", f"parse_authority({arg!r}, check=True) raised ValueError")
+        X.check((lh, lp) == (a, None), "C33/parse-authority/lenient-fallback", f"parse_authority({arg!r}, check=False) -> {(lh, lp)!r}, expected the input and None")
+        return
+    X.reach("accepted")
+    why = "non-ascii-digit" if port and not port.isascii() else ("trailing-newline" if port and port.endswith("\n") else "other")
+    X.check(port_ok, f"C33/parse-authority/accepts-bad-port/{why}", f"parse_authority({arg!r}, check=True) -> {(h, p)!r}")
+    X.check(p == (None if port is None else int(port)), "C33/parse-authority/port", f"parse_authority({arg!r}, check=True) -> port {p!r}")
+    try:
+        same = urlref.hostkey(h) == urlref.hostkey(host)
+    except urlref.Invalid:
+        same = False
+    X.check(same and not h.startswith("["), f"C33/parse-authority/host/{cls}", f"parse_authority({arg!r}, check=True) -> host {h!r}")
+    X.check((lh, lp) == (h, p), "C33/parse-authority/lenient-differs", f"check=False gives {(lh, lp)!r}, check=True {(h, p)!r}")
+
+
 LABELS = [b"a", b"A1", b"-", b"a-", b"a_b", b"a" * 63, b"a" * 64, b"", b"xn--bcher-kva", b"b\xc3\xbccher", b"a b", b"a\n", b"a\x00", b"1", b"256", b"a/b", b"a:b", b"*"]
 
 
@@ -393,7 +431,10 @@ def _build_regex_queries():
         ok = bool(real.match(v)) and check.is_valid_host(v)
         return ok, f"_label_valid.match({v!r}) succeeds and is_valid_host({v!r}) is True: not 1-63 characters of [A-Za-z0-9_-]"
 
-    qs.append(smt.lang_subset("label ⊆ (LDH|_){1,63}", rl, z3.Loop(ldh_us, 1, 63), key="C33/regex/label-too-wide", replay=rp_wide))
+    nonl = smt.no_chars("\n")
+    qs.append(smt.lang_subset("label ⊆ (LDH|_){1,63} (no newline in input)", rl, z3.Loop(ldh_us, 1, 63), key="C33/regex/label-too-wide", replay=rp_wide, within=nonl))
+    qs.append(smt.Query("no accepted label ends in a newline", [z3.InRe(z3.String("s"), z3.Intersect(rl, z3.Concat(smt.any_string(), z3.Re(z3.StringVal("\n")))))],
+                        key="C33/regex/label-trailing-newline", witness_vars=[z3.String("s")], replay=rp_wide))
 
     def rp_narrow(w):
         v = w["s"].encode("latin-1", "replace")
@@ -438,7 +479,6 @@ def _build_regex_queries():
         port = m.group("port") if m else None
         return ok, f"_authority_re matches {v!r} (port group {port!r}): not host [':' 1*DIGIT] over ASCII digits"
 
-    nonl = smt.no_chars("\n")
     qs.append(smt.lang_subset("_authority_re ⊆ host[:1*DIGIT] (no newline in input)", ra, shape, key="C33/regex/authority-port-non-ascii-digit", replay=rp_auth, within=nonl))
     # a port followed by a newline is not a port
     tail_nl = z3.Concat(anych, z3.Re(z3.StringVal(":")), z3.Plus(digit), z3.Re(z3.StringVal("\n")))
@@ -487,6 +527,9 @@ def obligations(tier):
         Symx("parse-unparse", lambda X: h_parse_unparse(X, n_pu),
              bounds=f"url.parse(str|bytes) x scheme x hosts (names, A-labels, IPv4, IPv6) x 4 ports x lead x strings of <= {n_pu} characters over {ALPHABET}",
              encoded=ENCODED[5:9] + ENCODED[10:11], must_reach=["parsed", "rejected"], parallel_depth=3),
+        Symx("parse-authority", h_parse_authority,
+             bounds=f"host texts (menu {HOST_MENU} + U-labels; thorough: all host classes) x port text {AUTH_PORTS} x str/bytes, check=True and check=False",
+             encoded=ENCODED[9:12], must_reach=["accepted", "rejected"], parallel_depth=2),
         Symx("valid-host", h_valid_host,
              bounds=f"hosts of 1-3 labels from a {len(LABELS)}-entry menu (63/64-byte labels, empty, '-', '_', space, newline, NUL, non-ASCII, A-label), 5-label names around 255 bytes, "
                     "trailing dot, IP literal menu, bytes and str argument",
